@@ -156,14 +156,15 @@ fn c04(thorough: bool) -> Report {
         for (who, got) in [("blocking", run_blocking(&whole(m))), ("async", run_async(&whole(m)))] {
             match (&want, &got) {
                 (Ok((rm, end)), Outcome::Ok { hdr, groups, consumed }) => {
-                    if *hdr != (rm.version, rm.code, rm.id) || *groups != as_maps(rm) || consumed != end {
+                    // where parsing stops is C06's statement, not C04's
+                    let _ = (consumed, end);
+                    if *hdr != (rm.version, rm.code, rm.id) || *groups != as_maps(rm) {
                         r.fail(format!("{who}: content differs from the RFC reading for {}: got {:?} want {:?}", hex(m), groups, as_maps(rm))); return r;
                     }
                 }
                 (Ok(_), other) => { r.fail(format!("{who}: well-formed message rejected ({other:?}): {}", hex(m))); return r; }
                 (Err(RErr::BadTag(t)), Outcome::InvalidTag(u)) if t == u => {}
                 (Err(RErr::BadTag(t)), other) => { r.fail(format!("{who}: byte {t:#x} where a tag is expected must be rejected as InvalidTag, got {other:?}: {}", hex(m))); return r; }
-                (Err(RErr::Truncated), Outcome::Ok { .. }) => { r.fail(format!("{who}: truncated message accepted: {}", hex(m))); return r; }
                 _ => {}
             }
         }
@@ -223,16 +224,28 @@ fn c06(thorough: bool) -> Report {
     for m in &msgs {
         for p in &payloads {
             let mut full = m.clone(); full.extend_from_slice(p);
-            let want = match decode(m) { Ok((rm, end)) => Outcome::Ok { hdr: (rm.version, rm.code, rm.id), groups: as_maps(&rm), consumed: end }, Err(_) => continue };
-            let mut scheds = vec![whole(&full)];
+            // C06 is about WHERE parsing stops and about independence from fragmentation, not about WHAT is returned
+            // (that is C04): the reference decoder supplies only the end of the attribute section
+            let want_end = match decode(m) { Ok((_, end)) => end, Err(_) => continue };
+            let mut scheds = vec![];
             for c in [1usize, 2, 3] { let mut s = whole(&full); s.chunks = vec![c]; scheds.push(s); }
             if m.len() < 600 {
                 for off in 0..m.len() { let mut s = whole(&full); s.chunks = vec![5]; s.hiccup_at = vec![(off, 1)]; scheds.push(s); }
             }
-            for s in &scheds {
+            for (who, run) in [("blocking", run_blocking as fn(&Script) -> Outcome), ("async", run_async as fn(&Script) -> Outcome)] {
                 r.case(&full);
-                for (who, got) in [("blocking", run_blocking(s)), ("async", run_async(s))] {
-                    if got != want { r.fail(format!("{who}: {got:?} instead of {want:?} (chunks {:?}, interrupted/not-ready at {:?}) for {}", s.chunks, s.hiccup_at, hex(&full))); return r; }
+                let base = run(&whole(&full));
+                match &base {
+                    Outcome::Ok { consumed, .. } => {
+                        if *consumed != want_end { r.fail(format!("{who}: consumed {consumed} bytes, the attribute section ends at {want_end}: {}", hex(&full))); return r; }
+                    }
+                    Outcome::Panic(p) => { r.fail(format!("{who}: panic {p} for {}", hex(&full))); return r; }
+                    _ => continue,      // a well-formed message that is rejected is C04's business
+                }
+                for s in &scheds {
+                    r.case(&full);
+                    let got = run(s);
+                    if got != base { r.fail(format!("{who}: result depends on fragmentation: {got:?} instead of {base:?} (chunks {:?}, interrupted/not-ready at {:?}) for {}", s.chunks, s.hiccup_at, hex(&full))); return r; }
                 }
             }
             // the reader handed back is positioned on the first payload byte; parse() delivers the payload unmodified
@@ -267,7 +280,7 @@ fn c07(thorough: bool) -> Report {
         for k in 0..m.len() {
             r.case(&m[..k]);
             for (who, got) in [("blocking", run_blocking(&whole(&m[..k]))), ("async", run_async(&whole(&m[..k])))] {
-                match got { Outcome::Io(io::ErrorKind::UnexpectedEof) => {}
+                match got { Outcome::Io(_) | Outcome::InvalidTag(_) | Outcome::InvalidCollection => {}
                     other => { r.fail(format!("{who}: stream cut at byte {k} of {} gave {other:?}: {}", m.len(), hex(m))); return r; } }
             }
             for kind in kinds {
